@@ -3,6 +3,11 @@ import FormulaicVerif.Proofs.C19Extra
 import FormulaicVerif.Proofs.C19Paths
 import FormulaicVerif.Proofs.C19LM
 import FormulaicVerif.Proofs.C19SF
+import FormulaicVerif.Proofs.C19Proto
+import FormulaicVerif.Proofs.C19LMX
+import FormulaicVerif.Proofs.C19StF
+import FormulaicVerif.Gen.Containers
+import FormulaicVerif.Proofs.C19OSet
 /-! # C19 — Structured, layered-mapping and formula containers obey their container laws
 
 Property theorems only; helper lemmas are in `Proofs/C19*.lean`. Every `theorem` in this file is
@@ -408,9 +413,10 @@ section formula
 open FormulaicVerif.Model.SFm
 
 /-- C19.5a  Whatever the ordering method (`NONE`, `DEGREE`, `SORT`), its ordering invariant holds
-after construction and after ANY finite sequence of `insert`, `__setitem__`, `__delitem__` (index
-or slice), `append`, `extend`, `pop`, `reverse` — including operations that raise — at the end
-and at every intermediate state. For `DEGREE` the invariant is "degrees never decrease", for `SORT`
+after construction and after ANY finite sequence of operations of the `MutableSequence` protocol:
+`insert`, `__setitem__` (index or slice), `__delitem__` (index, slice, extended slice), `append`,
+`extend`, `+=`, `pop`, `remove`, `clear`, `reverse`, and the read-only `f[a:b:c]`, `index`, `count`,
+`in`, `reversed`, `==` — including operations that raise — at the end and at every intermediate state. For `DEGREE` the invariant is "degrees never decrease", for `SORT`
 "no term is `<` an earlier one and every term's factors are in expression order". -/
 theorem formula_sorted_invariant (o : SFm.Ordering) (l0 : List Term) (ops : List Op) :
     OrderingInv o (init o l0) ∧ OrderingInv o (run o (init o l0) ops) ∧
@@ -488,6 +494,884 @@ theorem formula_delete_exact (l : List Term) (i : Int) :
   · intro hn
     simp [delItem, step, hn, SFm.ofExcept]
 
+/-- C19.5e  SLICES. Slice assignment never changes a formula (a list of terms is rejected as invalid, a
+single term as not iterable). `del f[a:b:c]` removes exactly the positions `range(*slice.indices(n))`
+— a sub-sequence remains, nothing is re-ordered, step `0` is `ValueError`. `f[a:b:c]` is a new
+formula that satisfies the invariant of the same ordering and consists of the selected terms; for a
+forward slice (`c > 0`) of a `DEGREE`- or `NONE`-ordered formula it is exactly the list slice. -/
+theorem formula_slices (o : SFm.Ordering) (l : List Term) (a b : Option Int) (c : Int) :
+    (∀ v, (step o l (.setSlice a b c v)).1 = l ∧ (step o l (.setSlice a b c v)).2.isSome = true) ∧
+    (c = 0 → delSliceX l a b c = .error .valueError ∧ getSlice o l a b c = .error .valueError) ∧
+    (c ≠ 0 → delSliceX l a b c = .ok (removeIdxs l (sliceIndices a b c l.length)) ∧
+      (removeIdxs l (sliceIndices a b c l.length)).Sublist l) ∧
+    (∀ s, getSlice o l a b c = .ok s → OrderingInv o s ∧
+      (o ≠ .sort → s.Perm ((sliceIndices a b c l.length).filterMap (fun i => l[i]?))) ∧
+      (0 < c → OrderingInv o l → o ≠ .sort → s = (sliceIndices a b c l.length).filterMap (fun i => l[i]?))) := by
+  refine ⟨?_, ?_, ?_, ?_⟩
+  · intro v; cases v <;> simp [step, setSlice, SFm.ofExcept]
+  · intro h; subst h; simp [delSliceX, getSlice]
+  · intro h
+    have hb : (c == 0) = false := by simpa using h
+    exact ⟨by simp [delSliceX, hb], removeIdxs_sublist _ _⟩
+  · intro s h
+    unfold getSlice at h
+    split at h
+    · cases h
+    · simp only [Except.ok.injEq] at h
+      subst h
+      refine ⟨inv_reorder o _, ?_, ?_⟩
+      · intro ho
+        cases o with
+        | none => exact List.Perm.refl _
+        | degree => exact sortByDegree_perm _
+        | sort => exact absurd rfl ho
+      · intro hc hinv ho
+        have hsub := filterMap_getElem?_sublist l _ (sliceIndices_increasing a b c l.length hc)
+        cases o with
+        | none => rfl
+        | degree => exact sortByDegree_of_sorted _ (SortedDeg.sublist hinv hsub)
+        | sort => exact absurd rfl ho
+
+example : sliceIndices (some (-2)) none (-1) 5 = [3, 2, 1, 0] ∧ sliceIndices none none 2 5 = [0, 2, 4] ∧
+    sliceIndices (some 1) (some (-1)) 1 5 = [1, 2, 3] ∧ removeIdxs [10, 11, 12, 13, 14] [3, 1] = [10, 12, 14] := by
+  decide
+
+/-- C19.5e′  The two ways the model writes `del f[a:b]` agree: the extended-slice deletion with step
+`1` and integer bounds is the `take`/`drop` form that `formula_sorted_invariant` was first proved for. -/
+theorem formula_slice_delete_agrees (l : List Term) (a b : Int) :
+    delSliceX l (some a) (some b) 1 = .ok (delSlice l a b) ∧
+    ∀ o, step o l (.delSliceX (some a) (some b) 1) = step o l (.delSlice a b) := by
+  refine ⟨delSliceX_step_one l a b, fun o => ?_⟩
+  simp [step, delSliceX_step_one l a b, SFm.ofExcept]
+
+/-- C19.5f  `clear`, `remove`, searching and `==`. `clear()` always empties the formula (the model's
+fuel `len + 1` suffices). `remove(t)` deletes the FIRST term equal to `t` (`Term.__eq__`: same sorted
+factor expressions) and nothing else, and raises `ValueError` — changing nothing — when there is
+none; `index` returns that first position, `t in f` holds exactly when some term equals `t`, and
+`f == other` is term-by-term equality of two sequences of the same length. -/
+theorem formula_clear_remove (o : SFm.Ordering) (l : List Term) (t : Term) :
+    (step o l .clear).1 = [] ∧
+    (∀ n, indexOf l (some t) = some n ↔
+      ∃ h : n < l.length, termEq l[n] t = true ∧ ∀ j (hj : j < n), termEq (l[j]'(Nat.lt_trans hj h)) t = false) ∧
+    (∀ n, indexOf l (some t) = some n → SFm.remove l (some t) = .ok (l.eraseIdx n) ∧ (l.eraseIdx n).Sublist l) ∧
+    (indexOf l (some t) = none → (∀ x ∈ l, termEq x t = false) ∧
+      SFm.remove l (some t) = .error .valueError ∧ (step o l (.remove (some t))).1 = l) ∧
+    (result o l (.contains (some t)) = .bool true ↔ ∃ x ∈ l, termEq x t = true) ∧
+    (∀ other, eqTerms l other = true ↔ l.length = other.length ∧
+      ∀ i (h : i < l.length) (h' : i < other.length), termEq l[i] other[i] = true) := by
+  refine ⟨?_, ?_, ?_, ?_, ?_, eqTerms_iff l⟩
+  · simp [step, sf_clearLoop_spec (l.length + 1) l (Nat.lt_succ_self _)]
+  · intro n
+    simp only [indexOf, List.findIdx?_eq_some_iff_getElem, Bool.not_eq_true]
+  · intro n h
+    exact ⟨by simp [SFm.remove, h], List.eraseIdx_sublist _ _⟩
+  · intro h
+    have hall : ∀ x ∈ l, termEq x t = false := by
+      simp only [indexOf, List.findIdx?_eq_none_iff] at h
+      intro x hx; simpa using h x hx
+    exact ⟨hall, by simp [SFm.remove, h], by simp [step, SFm.remove, h, SFm.ofExcept]⟩
+  · simp only [result, Res.bool.injEq]
+    rw [decide_eq_true_iff]
+    show 0 < (l.filter (fun x => termEq x t)).length ↔ _
+    constructor
+    · intro hpos
+      cases hf : l.filter (fun x => termEq x t) with
+      | nil => rw [hf] at hpos; simp at hpos
+      | cons x r =>
+        have hx : x ∈ l.filter (fun x => termEq x t) := by rw [hf]; simp
+        rw [List.mem_filter] at hx
+        exact ⟨x, hx.1, hx.2⟩
+    · rintro ⟨x, hx, he⟩
+      have : x ∈ l.filter (fun x => termEq x t) := List.mem_filter.2 ⟨hx, he⟩
+      exact List.length_pos_of_mem this
+
+example : termEq [⟨"a", .lookup⟩, ⟨"b", .lookup⟩] [⟨"b", .lookup⟩, ⟨"a", .lookup⟩] = true := by decide
+/-- C19.5g  THE CONSTRUCTOR: `SimpleFormula(root, _ordering=o, **structure)` is refused
+(`FormulaInvalidError`) for a string or non-iterable `root`, for any `**structure`, and for any element
+that is not a `Term`; otherwise it holds the re-ordered terms (none when `root` is omitted) — and from
+there the ordering invariant holds after every operation sequence. -/
+theorem formula_constructor (o : SFm.Ordering) (arg : CtorArg) (kw : Bool) (ops : List Op) :
+    (construct o arg kw = .error .invalid ↔
+      (kw = true ∨ (match arg with
+        | .notTerms => True
+        | .missing => False
+        | .terms ts => ts.any Option.isNone = true))) ∧
+    (∀ l, construct o arg kw = .ok l →
+      l = init o arg.given ∧
+      OrderingInv o l ∧ OrderingInv o (run o l ops) ∧ ∀ st ∈ trace o l ops, OrderingInv o st.1) := by
+  constructor
+  · cases arg with
+    | notTerms => simp [construct]
+    | missing => cases kw <;> simp [construct]
+    | terms ts => cases kw <;> cases h : ts.any Option.isNone <;> simp [construct, h]
+  · intro l h
+    have hl : l = init o arg.given := by
+      cases arg with
+      | notTerms => simp [construct] at h
+      | missing =>
+        cases kw
+        · simp only [construct, Bool.false_eq_true, if_false, Except.ok.injEq] at h; exact h.symm
+        · simp [construct] at h
+      | terms ts =>
+        cases kw
+        · simp only [construct, Bool.false_eq_true, if_false] at h
+          split at h
+          · cases h
+          · simp only [Except.ok.injEq] at h; exact h.symm
+        · simp [construct] at h
+    subst hl
+    exact ⟨rfl, inv_reorder o _, run_inv o ops _ (inv_reorder o _), trace_inv o ops _ (inv_reorder o _)⟩
+
 end formula
+
+/-! ## 6. `Structured` as a container: `[]`, attribute access, iteration, `==`, `_to_dict`, default merger -/
+section protocol
+open FormulaicVerif.Model.St FormulaicVerif.Model.StOps FormulaicVerif.Spec.ContainerOps
+variable {α : Type}
+
+/-- C19.6a  `s[key]` for a non-tuple key: when `root` is the ONLY key the lookup is handed to the
+root object unchanged (`self.root[key]`, recursively through nested root-only `Structured`s);
+otherwise `None` and `"root"` address the root value, a string that does not start with `_` addresses
+that key, and everything else (an `int`, an underscore name, a missing key) is `KeyError`. -/
+theorem getitem_root_delegation (item : α → Key → Except StOps.Err (Val α)) (kvs : Items α) (key : Key) :
+    (rootOnly kvs = true →
+      ∃ r, kvs.lookup "root" = some r ∧ getItem item (.node kvs) key = getItem item r key) ∧
+    (rootOnly kvs = false →
+      getItem item (.node kvs) key = plainGet kvs key ∧
+      plainGet kvs .none = plainGet kvs (.str "root") ∧
+      (∀ i, plainGet kvs (.int i) = .error .keyError) ∧
+      (∀ s, badKey s = true → plainGet kvs (.str s) = .error .keyError) ∧
+      (∀ s, badKey s = false → plainGet kvs (.str s) =
+        match kvs.lookup s with
+        | some v => .ok v
+        | none => .error .keyError)) := by
+  constructor
+  · intro h
+    obtain ⟨k, r, rest, _, hl⟩ := rootOnly_lookup kvs h
+    exact ⟨r, hl, by rw [getItem_node, h, if_pos rfl, hl]⟩
+  · intro h
+    refine ⟨by rw [getItem_node, h]; rfl, ?_, fun _ => rfl, ?_, ?_⟩
+    · simp [plainGet, show badKey "root" = false by decide]
+    · intro s hs; simp [plainGet, hs]
+    · intro s hs
+      simp only [plainGet, hs, Bool.false_eq_true, if_false]
+      cases kvs.lookup s <;> rfl
+
+example : rootOnly [("root", Val.tup [Val.leaf (1 : Nat)])] = true ∧
+    rootOnly [("a", Val.leaf (1 : Nat)), ("root", .leaf 2)] = false := by decide
+
+/-- C19.6b  `s[path]` for a tuple key walks the structure one element at a time (so it composes),
+descending into a `Structured` by key and into a tuple by (possibly negative) index; it fails with
+`KeyError` as soon as the path extends beyond the structure or steps into a leaf, and with
+`IndexError` when a tuple index is out of range. The empty path returns the object itself. -/
+theorem path_lookup_walks (p q : List Key) (s : Val α) :
+    lookupPathK (p ++ q) s = (lookupPathK p s >>= lookupPathK q) ∧
+    lookupPathK [] s = .ok s ∧
+    (∀ a k, lookupPathK (k :: p) (.leaf a : Val α) = .error .keyError) ∧
+    (∀ kvs k, (kvs : Items α).lookup k = none → lookupPathK (.str k :: p) (.node kvs) = .error .keyError) ∧
+    (∀ (vs : List (Val α)) i, pyIdx i vs.length = none →
+      lookupPathK (.int i :: p) (.tup vs) = .error .indexError) := by
+  refine ⟨lookupPath_append p q s, rfl, ?_, ?_, ?_⟩
+  · intro a k; cases k <;> rfl
+  · intro kvs k h; simp [lookupPathK, h]
+  · intro vs i h; simp [lookupPathK, h]
+
+/-- C19.6c  GET AFTER SET: after a successful `s[p + (k,)] = v`, looking up that path returns `v`,
+and any longer path continues inside `v`. -/
+theorem setitem_then_getitem (item : α → Key → Except StOps.Err (Val α)) (kvs kvs' : Items α)
+    (p : List Key) (k : String) (v : Val α) (q : List Key)
+    (h : setAny kvs (.path (p ++ [.str k])) v = .ok kvs') :
+    getAny item kvs' (.path (p ++ [.str k])) = .ok v ∧
+    getAny item kvs' (.path (p ++ .str k :: q)) = lookupPathK q v := by
+  rw [setAny_path_ok] at h
+  have := setAt_lookup_same p k (.node kvs) v (.node kvs') q h
+  refine ⟨?_, this⟩
+  have h0 := setAt_lookup_same p k (.node kvs) v (.node kvs') [] h
+  simpa [getAny, lookupPathK] using h0
+
+example : setAny [("a", Val.tup [.node [("b", Val.leaf (1 : Nat))]])] (.path ([.str "a", .int 0] ++ [.str "c"])) (.leaf 2)
+    = .ok [("a", Val.tup [.node [("b", Val.leaf 1), ("c", .leaf 2)]])] := by rfl
+
+/-- C19.6d  SET DOES NOT DISTURB OTHER PATHS: a path that leaves the assigned path at some element
+(`Apart`: another key, or another index of the same sign) is looked up exactly as before — value or
+exception alike. -/
+theorem setitem_other_paths_unchanged (item : α → Key → Except StOps.Err (Val α)) (kvs kvs' : Items α)
+    (p : List Key) (last : Key) (v : Val α) (c rest q : List Key) (a b : Key)
+    (h : setAny kvs (.path (p ++ [last])) v = .ok kvs') (hp : p ++ [last] = c ++ a :: rest)
+    (hab : Apart a b) :
+    getAny item kvs' (.path (c ++ b :: q)) = getAny item kvs (.path (c ++ b :: q)) := by
+  rw [setAny_path_ok] at h
+  exact setAt_lookup_other c p last (.node kvs) v (.node kvs') a b rest q h hp hab
+
+example : Apart (.str "a") (.str "b") ∧ Apart (.int 0) (.int 2) ∧ Apart (.int (-1)) (.int (-2)) := by
+  simp [Apart]
+
+/-- C19.6e  WHEN ASSIGNMENT FAILS: a path assignment succeeds exactly when the prefix leads to a
+`Structured` and the last element is a string that `isidentifier()` and does not start with `_`;
+if the prefix cannot be walked the assignment raises what the walk raises (`KeyError` beyond the
+structure, `IndexError` for a tuple index out of range); the empty tuple and every non-string or
+non-identifier key are `KeyError`; a failing assignment leaves the structure as it was. -/
+theorem setitem_fails_iff (L : LeafOps α) (kvs : Items α) (p : List Key) (last : Key) (v : Val α) :
+    ((∃ kvs', setAny kvs (.path (p ++ [last])) v = .ok kvs') ↔
+      ∃ node k, lookupPathK p (.node kvs) = .ok (.node node) ∧ last = .str k ∧ isIdent k = true ∧
+        badKey k = false) ∧
+    (∀ e, lookupPathK p (.node kvs) = .error e → setAny kvs (.path (p ++ [last])) v = .error e) ∧
+    setAny kvs (.path []) v = .error .keyError ∧
+    (∀ key, (∃ kvs', setAny kvs (.plain key) v = .ok kvs') ↔
+      ∃ k, key = .str k ∧ isIdent k = true ∧ badKey k = false) ∧
+    (∀ key e, setAny kvs key v = .error e → (step L kvs (.set key v)).1 = kvs) := by
+  refine ⟨?_, ?_, rfl, ?_, ?_⟩
+  · rw [← setAt_ok_iff p last (.node kvs) v]
+    constructor
+    · rintro ⟨kvs', h⟩; exact ⟨_, (setAny_path_ok kvs kvs' p last v).1 h⟩
+    · rintro ⟨s', h⟩
+      obtain ⟨r, rfl⟩ := setAt_node p last kvs v s' h
+      exact ⟨r, (setAny_path_ok kvs r p last v).2 h⟩
+  · intro e h
+    rw [setAny_path, setAt_lookup_error p last (.node kvs) v e h]
+  · intro key
+    cases key with
+    | none => simp [setAny, setKey]
+    | int i => simp [setAny, setKey]
+    | str k =>
+      simp only [setAny, setKey, Key.str.injEq, exists_eq_left']
+      cases isIdent k <;> cases badKey k <;> simp
+  · intro key e h
+    simp [step, h]
+
+/-- C19.6f  A successful plain-key assignment or attribute assignment is the dictionary write
+`_structure[k] = v`: afterwards `k` maps to `v`, every other key keeps its value, and `k` is appended
+to the keys if it is new. `__setattr__` does not check `isidentifier()`; both refuse underscore names
+(`__setattr__` lets `_metadata` through without touching the structure). -/
+theorem setitem_is_dict_write (kvs kvs' : Items α) (k : String) (v : Val α) :
+    ((setAny kvs (.plain (.str k)) v = .ok kvs' ∨ (badKey k = false ∧ setAttr kvs k v = .ok kvs')) →
+      (∀ k', kvs'.lookup k' = if k' == k then some v else kvs.lookup k') ∧
+      kvs'.map (·.1) = addKey (kvs.map (·.1)) k ∧
+      getAttr kvs' k = .ok v) ∧
+    (badKey k = false → setAttr kvs k v = .ok (dictSet kvs k v)) ∧
+    (badKey k = true → getAttr kvs k = .error .attributeError ∧
+      setAttr kvs k v = if k == "_metadata" then .ok kvs else .error .attributeError) := by
+  refine ⟨?_, fun hb => by simp [setAttr, hb], fun hb => by simp [getAttr, setAttr, hb]⟩
+  intro h
+  have hk : kvs' = dictSet kvs k v ∧ badKey k = false := by
+    rcases h with h | ⟨hb, h⟩
+    · simp only [setAny, setKey] at h
+      split at h
+      · cases h
+      · split at h
+        · cases h
+        · rename_i hb
+          simp only [Except.ok.injEq] at h
+          exact ⟨h.symm, by simpa using hb⟩
+    · simp only [setAttr, hb, Bool.false_eq_true, if_false, Except.ok.injEq] at h
+      exact ⟨h.symm, hb⟩
+  obtain ⟨rfl, hb⟩ := hk
+  refine ⟨fun k' => lookup_dictSet kvs k v k', keys_dictSet kvs k v, ?_⟩
+  simp [getAttr, hb, lookup_dictSet]
+
+example : setAttr ([] : Items Nat) "not an identifier" (.leaf 1) = .ok [("not an identifier", .leaf 1)] ∧
+    setAny ([] : Items Nat) (.plain (.str "not an identifier")) (.leaf 1) = .error .keyError := by
+  constructor <;> rfl
+
+/-- C19.6g  ITERATION AND LENGTH: `len(s)` is the number of items `iter(s)` yields. When `root` is
+not the only key, iteration yields the root value first (if there is one) and then the other values
+in insertion order — a permutation of the stored values, and exactly the stored values in order
+when there is no root. When `root` is the only key, iteration is handed to the root: a tuple yields
+its elements, a nested `Structured` is iterated itself, an iterable leaf yields its own elements and
+a non-iterable leaf is yielded as the single item. -/
+theorem iter_len_consistent (li : α → Option (List (Val α))) (kvs : Items α) :
+    len li kvs = (iter li kvs).length ∧
+    (rootOnly kvs = false →
+      iter li kvs = (kvs.lookup "root").toList ++ (kvs.filter (fun kv => !isRootKey kv.1)).map (·.2) ∧
+      ((kvs.map (·.1)).Nodup → (iter li kvs).Perm (kvs.map (·.2))) ∧
+      (hasRoot kvs = false → iter li kvs = kvs.map (·.2))) ∧
+    (rootOnly kvs = true → ∃ r, kvs.lookup "root" = some r ∧
+      iter li kvs = match r with
+        | .tup vs => vs
+        | .node kvs' => iter li kvs'
+        | .leaf a =>
+          match li a with
+          | some xs => xs
+          | none => [r]) := by
+  refine ⟨?_, ?_, ?_⟩
+  · unfold len; rw [foldl_count]; simp
+  · intro h
+    have hi : iter li kvs = rootFirst kvs := by
+      unfold iter; rw [iterV_node, h]; rfl
+    refine ⟨hi, fun hn => by rw [hi]; exact rootFirst_perm kvs hn, fun hr => by rw [hi]; exact rootFirst_no_root kvs hr⟩
+  · intro h
+    obtain ⟨k, r, rest, he, hl⟩ := rootOnly_lookup kvs h
+    refine ⟨r, hl, ?_⟩
+    unfold iter
+    rw [iterV_node, h, if_pos rfl, hl]
+    cases r with
+    | tup vs => rfl
+    | node kvs' => rfl
+    | leaf a =>
+      simp only []
+      cases li a with
+      | some xs => rfl
+      | none =>
+        simp only []
+        subst he
+        simp only [rootOnly, List.isEmpty_cons, Bool.not_false, Bool.true_and, List.all_cons,
+          Bool.and_eq_true] at h
+        have hk : k = "root" := by simpa [isRootKey] using h.1
+        subst hk
+        have hf : (("root", Val.leaf a) :: rest).filter (fun kv => !isRootKey kv.1) = [] := by
+          apply List.filter_eq_nil_iff.2
+          intro kv hkv
+          rcases List.mem_cons.1 hkv with h1 | h1
+          · subst h1; simp [isRootKey]
+          · have := (List.all_eq_true.1 h.2) kv h1
+            simp [this]
+        unfold rootFirst
+        rw [hl, hf]; rfl
+
+/-- C19.6g′  A structure with nothing but a tuple root IS that tuple as a sequence: `s[i]`, `list(s)`
+and `len(s)` are the tuple's. And iterating any structure (leaves that are not themselves iterable)
+reaches every leaf exactly once: flattening the iterated values gives the `_flatten` sequence up to
+the root-first order. -/
+theorem root_only_is_its_root (item : α → Key → Except StOps.Err (Val α)) (li : α → Option (List (Val α)))
+    (kvs : Items α) :
+    (∀ vs, rootOnly kvs = true → kvs.lookup "root" = some (.tup vs) →
+      (∀ key, getItem item (.node kvs) key = tupItem vs key) ∧ iter li kvs = vs ∧ len li kvs = vs.length) ∧
+    (WF (.node kvs) → ((iter (fun _ => none) kvs).flatMap flatten).Perm (flattenI kvs)) := by
+  refine ⟨?_, fun hw => iterV_covers (.node kvs) hw rfl⟩
+  intro vs hr hl
+  have hi : iter li kvs = vs := by
+    obtain ⟨r, hl', h⟩ := (iter_len_consistent li kvs).2.2 hr
+    rw [hl] at hl'; cases hl'; exact h
+  refine ⟨fun key => ?_, hi, by rw [(iter_len_consistent li kvs).1, hi]⟩
+  obtain ⟨r, hl', h⟩ := (getitem_root_delegation item kvs key).1 hr
+  rw [hl] at hl'; cases hl'
+  rw [h]; rfl
+
+/-- C19.6h  `key in s` looks at the keys of the structure only (no delegation to the root, never
+true for `None` or an `int`), and agrees with plain-key lookup on structures that have other keys
+than `root`. -/
+theorem contains_iff_key (item : α → Key → Except StOps.Err (Val α)) (kvs : Items α) :
+    (∀ s, StOps.contains kvs (.str s) = (kvs.lookup s).isSome) ∧
+    StOps.contains kvs .none = false ∧ (∀ i, StOps.contains kvs (.int i) = false) ∧
+    (rootOnly kvs = false → ∀ s, badKey s = false →
+      (StOps.contains kvs (.str s) = true ↔ ∃ v, getItem item (.node kvs) (.str s) = .ok v)) := by
+  refine ⟨contains_str kvs, rfl, fun _ => rfl, ?_⟩
+  intro h s hs
+  rw [contains_str, getItem_node, h]
+  simp only [Bool.false_eq_true, if_false, plainGet, hs]
+  cases kvs.lookup s <;> simp
+
+/-- C19.6i  `==` is dictionary equality of the structures: reflexive, blind to the order of the
+keys at the top level (any permutation) and at every level (`norm`: what re-running the constructors
+does), and `False` against anything that is not a `Structured`. -/
+theorem eq_is_dict_equality (leq : α → α → Bool) (hr : ∀ a, leq a a = true) (kvs : Items α)
+    (hw : WF (.node kvs)) :
+    eqTop leq kvs (.node kvs) = true ∧
+    (∀ kvs', kvs'.Perm kvs → eqTop leq kvs (.node kvs') = true) ∧
+    eqTop leq kvs (norm (.node kvs)) = true ∧
+    (∀ a, eqTop leq kvs (.leaf a) = false) ∧ (∀ vs, eqTop leq kvs (.tup vs) = false) := by
+  refine ⟨valEq_refl leq hr _ hw, ?_, ?_, fun _ => rfl, fun _ => rfl⟩
+  · intro kvs' hp
+    simp only [WF] at hw
+    simp only [eqTop, valEq, Bool.and_eq_true, beq_iff_eq]
+    refine ⟨hp.length_eq.symm, itemsSub_of_lookup leq hr kvs kvs' hw.2 (fun kv hkv => ?_)⟩
+    exact lookup_of_mem_nodup kvs' kv.1 kv.2 (hp.mem_iff.2 hkv) ((hp.map (·.1)).nodup_iff.2 hw.1)
+  · have := valEq_norm leq hr (.node kvs) hw
+    simpa [eqTop, norm] using this
+
+example : eqTop Leaf.eq [("a", .leaf (.int 1)), ("root", .leaf (.set [1, 2]))]
+    (.node [("root", .leaf (.set [2, 1])), ("a", .leaf (.int 1))]) = true := by rfl
+
+/-- C19.6i′  What `==` checks, spelled out: two structures are equal exactly when they have the same
+number of keys and every key of the first is a key of the second with an equal value (values compared
+the same way, tuples element by element). -/
+theorem eq_unfolds (leq : α → α → Bool) (kvs kvs' : Items α) :
+    (eqTop leq kvs (.node kvs') = true ↔
+      kvs.length = kvs'.length ∧
+      ∀ kv ∈ kvs, ∃ w, kvs'.lookup kv.1 = some w ∧ valEq leq kv.2 w = true) ∧
+    (∀ vs ws : List (Val α), valEq leq (.tup vs) (.tup ws) = true ↔
+      vs.length = ws.length ∧ ∀ i (h : i < vs.length) (h' : i < ws.length), valEq leq vs[i] ws[i] = true) := by
+  refine ⟨by simp only [eqTop, valEq, Bool.and_eq_true, beq_iff_eq, itemsSub_iff], ?_⟩
+  intro vs
+  induction vs with
+  | nil => intro ws; cases ws <;> simp [valEq, tupEq]
+  | cons v r ih =>
+    intro ws
+    cases ws with
+    | nil => simp [valEq, tupEq]
+    | cons w r' =>
+      have ih' := ih r'
+      simp only [valEq] at ih' ⊢
+      simp only [tupEq, Bool.and_eq_true, ih', List.length_cons, Nat.add_right_cancel_iff]
+      constructor
+      · rintro ⟨h0, hl, hr⟩
+        refine ⟨hl, fun i h h' => ?_⟩
+        cases i with
+        | zero => simpa using h0
+        | succ j => simpa using hr j (by omega) (by omega)
+      · rintro ⟨hl, hr⟩
+        refine ⟨by simpa using hr 0 (by omega) (by omega), hl, fun i h h' => ?_⟩
+        have := hr (i + 1) (by omega) (by omega)
+        simpa only [List.getElem_cons_succ] using this
+
+/-- C19.6j  `_to_dict` is the structure itself written with plain dictionaries: same keys in the
+same order, reading the dictionaries back as `Structured`s gives the structure again, and with
+`recurse=True` no `Structured` instance is left anywhere inside. -/
+theorem to_dict_roundtrip (r : Bool) (kvs : Items α) :
+    (toDict r kvs).map (·.1) = kvs.map (·.1) ∧ DVal.toValI (toDict r kvs) = kvs ∧
+    DVal.plainI (toDict true kvs) = true :=
+  ⟨keys_toDict r kvs, toValI_toDict r kvs, plainI_toDict kvs⟩
+
+/-- C19.6k  THE DEFAULT MERGER: lists concatenate in argument order; sets unite (an element is in
+the result exactly when it is in one of the arguments, without repetition); dicts merge with later
+arguments winning; any other combination raises `NotImplementedError`. -/
+theorem merge_default_leaves :
+    (∀ xss : List (List Int), mergerDefault (xss.map .list) = .ok (.list xss.flatten)) ∧
+    (∀ xss : List (List Int), xss ≠ [] → ∃ u, mergerDefault (xss.map .set) = .ok (.set u) ∧ u.Nodup ∧
+      ∀ x, x ∈ u ↔ ∃ xs ∈ xss, x ∈ xs) ∧
+    (∀ ds : List (List (String × Int)), ds ≠ [] → (∀ d ∈ ds, (d.map (·.1)).Nodup) →
+      ∃ m, mergerDefault (ds.map .dict) = .ok (.dict m) ∧
+        ∀ k, m.lookup k = ds.reverse.findSome? (fun d => d.lookup k)) ∧
+    (∀ items : List Leaf, (∃ a ∈ items, a.isList = false) → (∃ a ∈ items, a.isSet = false) →
+      (∃ a ∈ items, a.isDict = false) → mergerDefault items = .error .merger) := by
+  refine ⟨?_, ?_, ?_, ?_⟩
+  · intro xss
+    have h1 : (xss.map Leaf.list).all Leaf.isList = true := by simp [Leaf.isList]
+    have h2 := map_listElems xss
+    simp [mergerDefault, h1, h2]
+  · intro xss hne
+    refine ⟨setUnion xss, ?_, nodup_setUnion xss, mem_setUnion xss⟩
+    have h1 := all_isList_map_set xss hne
+    have h2 : (xss.map Leaf.set).all Leaf.isSet = true := by simp [Leaf.isSet]
+    have h3 := map_setElems xss
+    simp [mergerDefault, h1, h2, h3]
+  · intro ds hne hn
+    refine ⟨dictChain ds, ?_, ?_⟩
+    · obtain ⟨h1, h2⟩ := all_isList_map_dict ds hne
+      have h3 : (ds.map Leaf.dict).all Leaf.isDict = true := by simp [Leaf.isDict]
+      have h4 := map_dictItems ds
+      simp [mergerDefault, h1, h2, h3, h4]
+    · intro k
+      unfold dictChain
+      rw [lookup_foldl_dictUpdate ds [] hn k]
+      cases ds.reverse.findSome? (fun d => d.lookup k) <;> rfl
+  · rintro items ⟨a, ha, ha'⟩ ⟨b, hb, hb'⟩ ⟨c, hc, hc'⟩
+    have h1 : items.all Leaf.isList = false := List.all_eq_false.2 ⟨a, ha, by simp [ha']⟩
+    have h2 : items.all Leaf.isSet = false := List.all_eq_false.2 ⟨b, hb, by simp [hb']⟩
+    have h3 : items.all Leaf.isDict = false := List.all_eq_false.2 ⟨c, hc, by simp [hc']⟩
+    simp [mergerDefault, h1, h2, h3]
+
+example : mergerDefault [.list [1], .set [2]] = .error .merger ∧ mergerDefault [.str "a", .str "b"] = .error .merger
+    ∧ mergerDefault [.dict [("a", 1), ("b", 2)], .dict [("b", 3), ("c", 4)]] = .ok (.dict [("a", 1), ("b", 3), ("c", 4)]) :=
+  ⟨rfl, rfl, rfl⟩
+
+/-- C19.6l  `_merge` without a `merger` on bare list objects is list concatenation in argument
+order (at any nesting depth of the merge: together with `merge_is_keywise`, a `_merge` of structures
+whose leaves are lists concatenates the lists found under each key, in object order). -/
+theorem merge_default_concatenates (fuel : Nat) (ctx : List String) (xss : List (List Int)) (hne : xss ≠ []) :
+    merge mergerDefault (fuel + 1) ctx (xss.map (fun xs => .leaf (.list xs))) = .ok (.leaf (.list xss.flatten)) ∧
+    mergeDefault (xss.map (fun xs => .leaf (.list xs))) = .ok (.leaf (.list xss.flatten)) := by
+  have key : ∀ fuel ctx, merge mergerDefault (fuel + 1) ctx (xss.map (fun xs => .leaf (.list xs)))
+      = .ok (.leaf (.list xss.flatten)) := by
+    intro fuel ctx
+    have h := (merge_tuples_concatenate mergerDefault fuel ctx (xss.map (fun xs => Val.leaf (Leaf.list xs)))).2.2.2
+      (by simpa using hne) (by simp [Val.isTup, Val.isNode])
+    rw [h, flatMap_leafOf_lists, merge_default_leaves.1 xss]; rfl
+  exact ⟨key fuel ctx, key _ []⟩
+
+/-- C19.6n  `_map(func, recurse=False)`: as a dictionary it is again the key-wise map (same keys, a
+permutation: only `root` moves), but under each key `func` is applied ONCE to the object stored there
+— a leaf or a whole nested `Structured` — and element-wise through tuples. -/
+theorem map_nonrecursive_is_dict_map {β : Type} (f : Val α → Path → β) (kvs : Items α) :
+    ∃ r, mapTopNR f kvs = .node r ∧
+      (∀ k, r.lookup k = (kvs.lookup k).map (mapNR f [.key k])) ∧
+      (r.map (·.1)).Perm (kvs.map (·.1)) ∧
+      (∀ ctx kvs', mapNR f ctx (.node kvs') = .leaf (f (.node kvs') ctx)) ∧
+      (∀ ctx a, mapNR f ctx (.leaf a) = .leaf (f (.leaf a) ctx)) := by
+  refine ⟨_, rfl, ?_, ?_, fun _ _ => rfl, fun _ _ => rfl⟩
+  · intro k
+    rw [lookup_rootLast]
+    induction kvs with
+    | nil => rfl
+    | cons e r ih =>
+      obtain ⟨k0, v0⟩ := e
+      simp only [List.map_cons, List.lookup]
+      by_cases h : k = k0
+      · subst h; simp
+      · have hb : (k == k0) = false := by simpa using h
+        simp only [hb]; exact ih
+  · have := (rootLast_perm (kvs.map (fun kv => (kv.1, mapNR f [.key kv.1] kv.2)))).map (·.1)
+    simpa [Function.comp_def] using this
+
+/-- C19.6m  HISTORIES: over ANY finite sequence of container operations (`[]` reads and writes with
+plain keys or tuple paths, attribute reads and writes, iteration, `len`, `in`, `==`, `_to_dict`),
+including those that raise, every `Structured` inside the object keeps unique keys none of which
+starts with `_` (provided the assigned values do); an operation that only reads, and an operation
+that raises, leaves the object exactly as it was. -/
+theorem container_history_invariant (L : LeafOps α) (kvs : Items α) (ops : List (Op α))
+    (h0 : GoodKeys (.node kvs)) (hv : ∀ op ∈ ops, ∀ v, Op.newVal op = some v → GoodKeys v) :
+    GoodKeys (.node (run L kvs ops)) ∧
+    (∀ st ∈ trace L kvs ops, GoodKeys (.node st.1)) ∧
+    (∀ op, Op.mutating op = false → (step L kvs op).1 = kvs) ∧
+    (∀ op e, (step L kvs op).2 = .err e → (step L kvs op).1 = kvs) := by
+  refine ⟨?_, ?_, fun op h => step_readonly L kvs op h, ?_⟩
+  · induction ops generalizing kvs with
+    | nil => exact h0
+    | cons op r ih =>
+      exact ih _ (goodKeys_step L kvs op h0 (hv op (by simp))) (fun op' h' => hv op' (by simp [h']))
+  · induction ops generalizing kvs with
+    | nil => simp [trace]
+    | cons op r ih =>
+      intro st hst
+      simp only [trace, List.mem_cons] at hst
+      have hs := goodKeys_step L kvs op h0 (hv op (by simp))
+      rcases hst with h | h
+      · subst h; exact hs
+      · exact ih _ hs (fun op' h' => hv op' (by simp [h'])) st h
+  · intro op e h
+    cases op with
+    | set k v =>
+      simp only [step] at h ⊢
+      cases hs : setAny kvs k v with
+      | ok kvs' => rw [hs] at h; simp at h
+      | error e' => rfl
+    | setattr a v =>
+      simp only [step] at h ⊢
+      cases hs : setAttr kvs a v with
+      | ok kvs' => rw [hs] at h; simp at h
+      | error e' => rfl
+    | get k => rfl
+    | getattr a => rfl
+    | iter => rfl
+    | len => rfl
+    | contains k => rfl
+    | eq o => rfl
+    | toDict r => rfl
+
+example : GoodKeys (Val.node [("a", .tup [.leaf 1, .node [("root", .leaf 2)]]), ("root", .leaf (3 : Nat))]) := by
+  simp [GoodKeys, GoodKeysI, GoodKeysT, badKey]
+
+end protocol
+
+/-! ## 7. `LayeredMapping`: named layers and the writing mixin methods -/
+section layeredX
+open FormulaicVerif.Model.LMap FormulaicVerif.Model.LMapX FormulaicVerif.Spec.LayeredNames
+variable {ν : Type}
+
+/-- C19.7a  `named_layers` maps every name to the FIRST layer of that name: the mapping itself if it
+bears the name, else its first direct child of that name, else what the name means inside the first
+child (top first) that knows it; unnamed layers (`None`, `""`) never appear. `getattr(m, name)` and
+`named_layers[name]` agree, and a name that no layer bears is `AttributeError`. -/
+theorem lm_named_layers_first_wins (m : LM ν) (n : String) :
+    (namedLayers m).lookup n = findNamed n m.toLayer ∧
+    ((namedLayers m).map (·.1)).Nodup ∧
+    (namedLayers m).lookup "" = none ∧
+    (∀ l, getAttr m n = .ok l ↔ findNamed n m.toLayer = some l) ∧
+    (findNamed n m.toLayer = none → getAttr m n = .error .attributeError) := by
+  have h1 : (namedLayers m).lookup n = findNamed n m.toLayer := lookup_namedOf n m.toLayer
+  refine ⟨h1, nodup_namedOf _, ?_, ?_, ?_⟩
+  · rw [show (namedLayers m).lookup "" = findNamed "" m.toLayer from lookup_namedOf "" m.toLayer]
+    cases hf : findNamed "" m.toLayer with
+    | none => rfl
+    | some x => exact absurd rfl (findNamed_ne_empty "" _ x hf)
+  · intro l
+    unfold getAttr
+    rw [h1]
+    cases findNamed n m.toLayer <;> simp
+  · intro h
+    unfold getAttr
+    rw [h1, h]
+
+example : findNamed "x" (Layer.lm (some "top") [] [.lm (some "a") [] [.lm (some "x") [("k", 1)] []], .lm (some "x") [("k", (2 : Nat))] []])
+    = some (.lm (some "x") [("k", 2)] []) := by rfl
+
+/-- C19.7b  EVERY write is confined to the private layer: `pop`, `popitem`, `clear`, `setdefault`,
+`update` (the `MutableMapping` mixins) as well as `[]=` and `del` leave the supplied layers and the
+name untouched, whether they succeed or raise, over any sequence of such operations. -/
+theorem lm_all_writes_private (m : LM ν) :
+    (∀ op m' r, LMapX.Op.isWithLayers op = false → LMapX.step m op = .ok (m', r) →
+      m'.layers = m.layers ∧ m'.name = m.name) ∧
+    (∀ ops : List (LMapX.Op ν), (∀ op ∈ ops, LMapX.Op.isWithLayers op = false) →
+      (LMapX.run m ops).layers = m.layers ∧ (LMapX.run m ops).name = m.name) := by
+  refine ⟨fun op m' r hw h => stepX_layers m m' op r hw h, ?_⟩
+  intro ops
+  induction ops generalizing m with
+  | nil => intro _; exact ⟨rfl, rfl⟩
+  | cons op r ih =>
+    intro hops
+    have hr := fun m' => ih m' (fun op' h' => hops op' (by simp [h']))
+    simp only [LMapX.run]
+    cases hs : LMapX.step m op with
+    | error e => exact hr m
+    | ok x =>
+      have := stepX_layers m x.1 op x.2 (hops op (by simp)) hs
+      simp only
+      rw [(hr x.1).1, (hr x.1).2]
+      exact this
+
+/-- C19.7c  `pop`: a key of the private layer is removed and its current value returned, after
+which the key falls back to the supplied layers; a key that lives only in a supplied layer cannot
+be popped (`KeyError`, nothing changes); a missing key returns the default if one is given, else
+`KeyError`. -/
+theorem lm_pop_private_only (m : LM ν) (k : String) (d : Option ν) :
+    (dictHas m.muts k = true → ∃ v, m.get k = some v ∧
+      pop m k d = .ok ({ m with muts := dictDel m.muts k }, v) ∧
+      ({ m with muts := dictDel m.muts k } : LM ν).get k = getL m.layers k) ∧
+    (dictHas m.muts k = false → (m.get k).isSome = true → pop m k d = .error .keyError) ∧
+    (m.get k = none → pop m k d = match d with
+      | some x => .ok (m, x)
+      | none => .error .keyError) := by
+  refine ⟨?_, ?_, ?_⟩
+  · intro h
+    have hl : ∃ v, m.muts.lookup k = some v := by
+      have := (lookup_isSome_iff m.muts k).2
+      have hmem : k ∈ m.muts.map (·.1) := by
+        simp only [dictHas, List.any_eq_true] at h
+        obtain ⟨kv, hkv, he⟩ := h
+        exact List.mem_map.2 ⟨kv, hkv, by simpa using he⟩
+      have hs := this hmem
+      cases hv : m.muts.lookup k with
+      | none => rw [hv] at hs; cases hs
+      | some v => exact ⟨v, rfl⟩
+    obtain ⟨v, hv⟩ := hl
+    have hg : m.get k = some v := by simp [LM.get, LM.toLayer, Layer.get, hv]
+    refine ⟨v, hg, by simp [pop, hg, LM.del, h], ?_⟩
+    have := (lm_set_get m k v k).2 { m with muts := dictDel m.muts k } (by simp [LM.del, h])
+    simpa using this
+  · intro h hs
+    cases hg : m.get k with
+    | none => rw [hg] at hs; cases hs
+    | some v => simp [pop, hg, LM.del, h]
+  · intro h
+    simp only [pop, h]
+    cases d <;> rfl
+
+/-- C19.7d  `clear()` removes exactly the private layer: it always terminates (the model's fuel
+`len(_mutations) + 1` suffices), leaves the supplied layers and the name alone, and afterwards the
+mapping is the top-first merge of the supplied layers only. `popitem()` on a mapping without private
+writes raises `KeyError`. -/
+theorem lm_clear_private (m : LM ν) :
+    (∃ m', clear m = some m' ∧ m'.muts = [] ∧ m'.layers = m.layers ∧ m'.name = m.name ∧
+      m'.toLayer.flat = flatL m.layers) ∧
+    (m.muts = [] → ∃ e, popitem m = .error e) := by
+  refine ⟨?_, popitem_error_of_nil m⟩
+  obtain ⟨m', h1, h2, h3, h4⟩ := clearLoop_spec (m.muts.length + 1) m (Nat.lt_succ_self _)
+  exact ⟨m', h1, h2, h3, h4, by simp [LM.toLayer, Layer.flat, h2, h3]⟩
+/-- C19.7e  A LIVE VIEW: when the owner of a supplied layer writes that layer, the mapping's private
+layer and name are untouched and only the addressed layer differs — so every law above (top-first
+lookup, iteration, `len`) holds for the new stack. In particular a key the owner sets in the TOP
+supplied layer is seen through the mapping at once unless the mapping shadows it privately, and a
+private write still shadows whatever the owners do afterwards. -/
+theorem lm_live_view (m : LM ν) (k : String) (x : ν) :
+    (∀ path v, (extWrite m path k v).muts = m.muts ∧ (extWrite m path k v).name = m.name) ∧
+    (∀ d rest v, m.layers = .dict d :: rest →
+      (extWrite m [0] k v).layers = .dict (match v with
+        | some y => dictSet d k y
+        | none => dictDel d k) :: rest) ∧
+    (∀ d rest, m.layers = .dict d :: rest → m.muts.lookup k = none →
+      (extWrite m [0] k (some x)).get k = some x) ∧
+    (∀ path v y, m.muts.lookup k = some y → (extWrite m path k v).get k = some y) := by
+  refine ⟨?_, ?_, ?_, ?_⟩
+  · intro path v; cases path <;> exact ⟨rfl, rfl⟩
+  · intro d rest v h
+    cases v <;> simp [extWrite, h, updList, updLayer, extSetL, extDelL]
+  · intro d rest h hm
+    simp [extWrite, h, updList, updLayer, extSetL, LM.get, LM.toLayer, Layer.get, hm, getL,
+      lookup_dictSet]
+  · intro path v y hm
+    cases path with
+    | nil => simp [extWrite, LM.get, LM.toLayer, Layer.get, hm]
+    | cons i p => simp [extWrite, LM.get, LM.toLayer, Layer.get, hm]
+
+end layeredX
+
+/-! ## 8. The `StructuredFormula` constructor: in-place simplification of re-prepared items -/
+section structuredFormula
+open FormulaicVerif.Model.St FormulaicVerif.Model.StF
+variable {α : Type}
+
+/-- C19.8  `StructuredFormula(root, **structure)` — the one caller of `_simplify(inplace=True)` —
+is leaf preserving: it fails (ValueError) exactly when a key starts with `_`; otherwise the new
+object is `_simplify(recurse=True, unwrap=False, inplace=True)` of the re-prepared items, its
+`_flatten` sequence is that of the structure after the constructors are re-run (`norm`), hence a
+permutation of the given leaves and exactly the given leaves, in order, for constructor-built
+(`RootLast`) input; `Formula(root, **structure)` (a further `_simplify()`) keeps the same leaves. -/
+theorem structured_formula_ctor_leaf_preserving (kvs : Items α) :
+    (kvs.any (fun kv => badKey kv.1) = true → sfCtor kvs = .error .valueError) ∧
+    (kvs.any (fun kv => badKey kv.1) = false →
+      sfCtor kvs = simplify true false true (rootLast (prepI kvs)) ∧
+      ∃ v, sfCtor kvs = .ok v ∧ flatten v = flatten (norm (.node kvs)) ∧
+        (flatten v).Perm (flattenI kvs) ∧
+        (RootLast (.node kvs) → flatten v = flattenI kvs) ∧
+        (∀ w, formulaCall kvs = .ok w → flatten w = flatten v)) := by
+  refine ⟨fun h => by simp [sfCtor, h], ?_⟩
+  intro h
+  have hv : sfCtor kvs = .ok (sfNode (prepI kvs)) := by simp [sfCtor, h]
+  have hf : flatten (sfNode (prepI kvs)) = flatten (norm (.node kvs)) := by
+    have := flatten_prepV (.node kvs)
+    simpa [prepV] using this
+  refine ⟨by rw [hv, sfNode_simplify], sfNode (prepI kvs), hv, hf, ?_, ?_, ?_⟩
+  · rw [hf]
+    have := (flattenP_norm_perm (.node kvs) []).map (·.1)
+    rwa [flattenP_fst, flattenP_fst] at this
+  · intro hr; rw [hf, norm_of_rootLast _ hr]; rfl
+  · intro w hw
+    unfold formulaCall at hw
+    rw [hv] at hw
+    cases hs : sfNode (prepI kvs) with
+    | leaf a => rw [hs] at hw; simp only [Except.ok.injEq] at hw; rw [← hw]
+    | tup vs => rw [hs] at hw; simp only [Except.ok.injEq] at hw; rw [← hw]
+    | node s =>
+      rw [hs] at hw
+      simp only at hw
+      rw [(simplify_flatten.2 true true false s w hw)]; rfl
+
+example : sfCtor [("a", Val.node [("root", Val.node [("root", .leaf 1)])]), ("root", .tup [.node [("root", .leaf (2 : Nat))]])]
+    = .ok (.node [("a", .leaf 1), ("root", .tup [.leaf 2])]) := by rfl
+
+end structuredFormula
+
+/-! ## 9. The finite facts about the live classes that the models take for granted -/
+section tables
+open FormulaicVerif.Gen.Containers
+
+/-- C19.9  Read from the live package on every run (`Gen/Containers.lean`): the ordering methods are
+`none`, `degree`, `sort` (the names the engine decodes) with default `degree`; `Structured` has the
+two slots `_structure`, `_metadata` (so `__setattr__` of any other underscore name fails);
+`SimpleFormula` defines the primitives `__getitem__`, `__setitem__`, `__delitem__`, `__len__`,
+`insert` that the modelled `MutableSequence` compositions are built from, and no `+`, `-`, `*`
+between formulas — the sequence protocol is the whole mutating interface; `LayeredMapping` defines
+the five primitives of `MutableMapping`; `StructuredFormula` re-prepares items (`_prepare_item`). -/
+theorem live_container_tables :
+    orderingValues = ["none", "degree", "sort"] ∧ orderingDefault = "degree" ∧
+    structuredSlots = ["_structure", "_metadata"] ∧
+    (∀ m ∈ ["__getitem__", "__setitem__", "__delitem__", "__len__", "insert"], m ∈ simpleFormulaOwn) ∧
+    (∀ m ∈ ["__add__", "__sub__", "__radd__", "__mul__"], m ∉ simpleFormulaOwn) ∧
+    (∀ m ∈ ["__getitem__", "__setitem__", "__delitem__", "__iter__", "__len__"], m ∈ layeredMappingOwn) ∧
+    "_prepare_item" ∈ structuredFormulaOwn := by
+  decide
+
+end tables
+
+/-! ## 10. `OrderedSet`: an insertion-ordered set with the `collections.abc.Set` algebra -/
+section orderedSet
+open FormulaicVerif.Model.OSet
+
+/-- C19.10a  `OrderedSet(values)` keeps the distinct values in first-occurrence order: iteration yields
+no value twice, `len` is the number of values iterated, and `x in s` holds exactly for the given values. -/
+theorem oset_constructor (xs : List String) :
+    iter (mk xs) = firstOcc xs ∧ (iter (mk xs)).Nodup ∧ len (mk xs) = (iter (mk xs)).length ∧
+    (∀ x, OSet.contains (mk xs) x = true ↔ x ∈ xs) ∧ (xs.Nodup → iter (mk xs) = xs) :=
+  ⟨mk_eq xs, mk_nodup xs, rfl, fun x => by rw [contains_iff, mem_mk], mk_of_nodup xs⟩
+
+/-- C19.10b  The set algebra on duplicate-free sets: union lists the left operand and then the new
+elements of the right one in their order; difference keeps the left operand's order; intersection,
+reflected difference and symmetric difference have exactly the expected members; every result is
+again duplicate free. -/
+theorem oset_algebra (a : OS) (b : Other) (ha : a.Nodup) :
+    (union a b = a ++ (firstOcc b.elems).filter (fun y => !a.contains y)) ∧
+    (diff a b = a.filter (fun v => !b.elems.contains v)) ∧
+    (∀ x, x ∈ union a b ↔ x ∈ a ∨ x ∈ b.elems) ∧
+    (∀ x, x ∈ inter a b ↔ x ∈ a ∧ x ∈ b.elems) ∧
+    (∀ x, x ∈ diff a b ↔ x ∈ a ∧ x ∉ b.elems) ∧
+    (∀ x, x ∈ rdiff a b ↔ x ∈ b.elems ∧ x ∉ a) ∧
+    (∀ x, x ∈ OSet.xor a b ↔ (x ∈ a ∧ x ∉ b.elems) ∨ (x ∈ b.elems ∧ x ∉ a)) ∧
+    (union a b).Nodup ∧ (inter a b).Nodup ∧ (diff a b).Nodup ∧ (rdiff a b).Nodup ∧ (OSet.xor a b).Nodup ∧
+    (isdisjoint a b = true ↔ ∀ x ∈ b.elems, x ∉ a) := by
+  have hd : ∀ x, x ∈ diff a b ↔ x ∈ a ∧ x ∉ b.elems := by
+    intro x
+    simp only [diff, mem_mk, List.mem_filter, Bool.not_eq_true', contains_false_iff, mem_asSet]
+  have hr : ∀ x, x ∈ rdiff a b ↔ x ∈ b.elems ∧ x ∉ a := by
+    intro x
+    simp only [rdiff, mem_mk, List.mem_filter, Bool.not_eq_true', contains_false_iff, mem_asSet]
+  refine ⟨?_, ?_, ?_, ?_, hd, hr, ?_, mk_nodup _, mk_nodup _, mk_nodup _, mk_nodup _, mk_nodup _, ?_⟩
+  · rw [union, mk_eq, firstOcc_append, firstOcc_of_nodup a ha]
+  · rw [diff, mk_of_nodup _ (ha.sublist List.filter_sublist)]
+    apply List.filter_congr
+    intro x _
+    have : OSet.contains b.asSet x = b.elems.contains x := by
+      have h := mem_asSet b x
+      by_cases hx : x ∈ b.elems
+      · simp [OSet.contains, hx, h.2 hx]
+      · have : x ∉ b.asSet := fun hc => hx (h.1 hc)
+        simp [OSet.contains, hx, this]
+    rw [this]
+  · intro x; simp only [union, mem_mk, List.mem_append]
+  · intro x
+    simp only [inter, mem_mk, List.mem_filter, contains_iff]
+    exact ⟨fun h => ⟨h.2, h.1⟩, fun h => ⟨h.2, h.1⟩⟩
+  · intro x
+    simp only [OSet.xor, union, mem_mk, List.mem_append, Other.elems, hd, hr]
+  · simp only [isdisjoint, List.all_eq_true, Bool.not_eq_true', contains_false_iff]
+
+example : union ["a", "b"] (.list ["c", "a", "c"]) = ["a", "b", "c"] ∧ inter ["a", "b", "c"] (.list ["c", "z", "a"]) = ["c", "a"]
+    ∧ OSet.xor ["a", "b", "c"] (.list ["a", "z"]) = ["b", "c", "z"] := by decide
+
+/-- C19.10c  Comparisons between duplicate-free sets are the set ones, blind to the order of insertion:
+`a <= b` iff every element of `a` is in `b`; `a == b` iff they have the same elements; `a < b` iff
+`a <= b` and not `a == b`. Against a plain list `==` is `False` and the orderings raise `TypeError`. -/
+theorem oset_comparisons (a b : OS) (ha : a.Nodup) (hb : b.Nodup) :
+    (le a b = true ↔ ∀ x ∈ a, x ∈ b) ∧
+    (OSet.eq a b = true ↔ ∀ x, x ∈ a ↔ x ∈ b) ∧
+    (lt a b = true ↔ le a b = true ∧ OSet.eq a b = false) ∧
+    (∀ xs, cmp a .eq (.list xs) = .ok false ∧ cmp a .le (.list xs) = .error .typeError) := by
+  have hle : le a b = true ↔ ∀ x ∈ a, x ∈ b := by
+    simp only [le, Bool.and_eq_true, decide_eq_true_eq, List.all_eq_true, contains_iff]
+    exact ⟨fun h => h.2, fun h => ⟨ha.length_le_of_subset h, h⟩⟩
+  have heq : OSet.eq a b = true ↔ ∀ x, x ∈ a ↔ x ∈ b := by
+    simp only [OSet.eq, Bool.and_eq_true, decide_eq_true_eq, hle]
+    constructor
+    · rintro ⟨hl, hs⟩ x
+      exact ⟨hs x, fun hx => subset_antisymm_of_length a b ha hb hs hl hx⟩
+    · intro h
+      refine ⟨?_, fun x hx => (h x).1 hx⟩
+      exact Nat.le_antisymm (ha.length_le_of_subset (fun x hx => (h x).1 hx))
+        (hb.length_le_of_subset (fun x hx => (h x).2 hx))
+  refine ⟨hle, heq, ?_, fun xs => ⟨rfl, rfl⟩⟩
+  simp only [lt, Bool.and_eq_true, decide_eq_true_eq]
+  constructor
+  · rintro ⟨hl, hs⟩
+    refine ⟨hs, ?_⟩
+    simp only [OSet.eq, Bool.and_eq_false_iff, decide_eq_false_iff_not]
+    exact Or.inl (by omega)
+  · rintro ⟨hs, hne⟩
+    refine ⟨?_, hs⟩
+    have h1 : a.length ≤ b.length := ha.length_le_of_subset (hle.1 hs)
+    simp only [OSet.eq, hs, Bool.and_true, decide_eq_false_iff_not] at hne
+    omega
+
+/-- C19.10d  Over ANY sequence of set operations starting from a constructed set, the running set
+never holds a value twice and its `len` is the number of values it iterates. -/
+theorem oset_history_nodup (xs : List String) (ops : List OSet.Op) :
+    (run (mk xs) ops).Nodup ∧ ∀ st ∈ trace (mk xs) ops, st.1.Nodup ∧ len st.1 = (iter st.1).length := by
+  have hstep : ∀ (a : OS) (op : OSet.Op), a.Nodup → (step a op).1.Nodup := by
+    intro a op ha
+    cases op with
+    | union b => exact mk_nodup _
+    | inter b => exact mk_nodup _
+    | diff b => exact mk_nodup _
+    | rdiff b => exact mk_nodup _
+    | xor b => exact mk_nodup _
+    | cmp c b => simp only [step]; cases cmp a c b <;> exact ha
+    | isdisjoint b => exact ha
+    | contains x => exact ha
+  have key : ∀ (ops : List OSet.Op) (a : OS), a.Nodup →
+      (run a ops).Nodup ∧ ∀ st ∈ trace a ops, st.1.Nodup ∧ len st.1 = (iter st.1).length := by
+    intro ops
+    induction ops with
+    | nil => intro a ha; exact ⟨ha, by simp [trace]⟩
+    | cons op r ih =>
+      intro a ha
+      have h1 := hstep a op ha
+      obtain ⟨h2, h3⟩ := ih _ h1
+      refine ⟨h2, ?_⟩
+      intro st hst
+      simp only [trace, List.mem_cons] at hst
+      rcases hst with h | h
+      · subst h; exact ⟨h1, rfl⟩
+      · exact h3 st h
+  exact key ops (mk xs) (mk_nodup xs)
+
+end orderedSet
 
 end FormulaicVerif.Props.C19
